@@ -143,6 +143,8 @@ impl<'a> Grammar<'a> {
                     ));
                 }
                 let components = pos.iter().map(|x| x.to_string()).collect();
+                #[cfg(sudachi_verif)]
+                crate::verif::emit_global("dict_write", serde_json::json!({"what": "register_pos", "id": new_id}));
                 self.pos_list.push(components);
                 Ok(new_id as u16)
             }
@@ -159,6 +161,8 @@ impl<'a> Grammar<'a> {
     ///
     /// Only pos_list is merged
     pub fn merge(&mut self, other: Grammar) {
+        #[cfg(sudachi_verif)]
+        crate::verif::emit_global("dict_write", serde_json::json!({"what": "grammar_merge", "before": self.pos_list.len(), "added": other.pos_list.len()}));
         self.pos_list.extend(other.pos_list);
     }
 }
